@@ -5,6 +5,7 @@ One shard of one property's workload, in its own process.  Writes a JSON result;
 """
 import importlib
 import json
+import os
 import sys
 import traceback
 
@@ -12,10 +13,18 @@ import traceback
 def main(argv):
     prop, tier, seed, shard, nshards, out = argv[:6]
     seed, shard, nshards = int(seed), int(shard), int(nshards)
+    # address-space cap: a library that starts to allocate without bound (e.g. a span of 10**12 instants
+    # indexed one by one) gets a MemoryError - attributed like any other exception - instead of taking the
+    # machine, and the sibling shards, down with it
+    try:
+        import resource
+        lim = int(float(os.environ.get("DYNMON_MEM_GB") or 6) * 2 ** 30)
+        resource.setrlimit(resource.RLIMIT_AS, (lim, resource.getrlimit(resource.RLIMIT_AS)[1]))
+    except Exception:
+        pass
     from . import env
     from .core import Ctx, dump_result
     from . import reach
-    import os
     rc = reach.Reach(os.path.join(env.REPO, "dynetx"))
     if os.environ.get("DYNMON_REACH", "1") != "0":
         rc.start()  # before the import: module and class bodies count as reached
